@@ -1,5 +1,5 @@
 (** C12 — kill and pending-timeout deadlines stop tasks, never early, and end the Job. *)
-From Furiko Require Import Job.Core Job.Sync Proofs.JobP Proofs.SyncP.
+From Furiko Require Import Job.Core Job.Sync Proofs.JobP Proofs.SyncP Proofs.SweepP.
 
 (** The kill sweep deletes only when the kill timestamp has passed (<= now) or the
     completion strategy is decided, and only tasks that are neither finished nor already
@@ -89,6 +89,27 @@ Theorem c12_force_guard :
         p_deletion p = Some d /\ d + force_timeout cfg <= now.
 Proof. exact handle_force_guard. Qed.
 Print Assumptions c12_force_guard.
+
+(** "every task still alive is deleted": once the Job is to be killed, the pass issues a delete
+    for every task it sees that is neither finished nor already being deleted - whatever each
+    call's outcome (a failed call fails the pass, which is then retried) *)
+Theorem c12_kill_sweep_complete :
+  forall s j tasks now s' j' ok,
+    handle_kill s j tasks now = (s', j', ok) -> should_kill now j = true ->
+    forall p, In p tasks -> pod_finish_ts p = None -> p_deletion p = None ->
+      exists o, In (ADelete (p_name p) false o) (ps_actions s').
+Proof. exact kill_sweep_complete. Qed.
+Print Assumptions c12_kill_sweep_complete.
+
+(** ... and every task that has not begun running within the (positive) pending timeout *)
+Theorem c12_pending_sweep_complete :
+  forall cfg s j tasks now s' j' ok,
+    handle_pending cfg s j tasks now = (s', j', ok) -> 0 < pending_timeout cfg j ->
+    forall p, In p tasks -> pod_finish_ts p = None -> p_cont_start p = None -> p_deletion p = None ->
+      p_created p + pending_timeout cfg j <= now ->
+      exists o, In (ADelete (p_name p) false o) (ps_actions s').
+Proof. exact pending_sweep_complete. Qed.
+Print Assumptions c12_pending_sweep_complete.
 
 (** Non-vacuity: a pending Pod past its timeout is deleted and its ref is marked Killed /
     PendingTimeout (counts as a finished attempt once the Pod is gone). *)
